@@ -182,10 +182,40 @@ impl Queries {
 
         let queries_start = decoder.index();
         let inner = LowerQuery::read(decoder)?;
-        let original = decoder
-            .slice_from(queries_start)?
-            .to_vec()
-            .into_boxed_slice();
+        let raw = decoder.slice_from(queries_start)?;
+
+        // The question is the first name of a message, so a compression pointer in it can only
+        // target octets of the header. `original` is echoed verbatim into the response, whose
+        // header differs from the request's (QR, AA, RCODE, section counts): an echoed pointer
+        // would make the response's question undecodable or name something else. In that case
+        // keep the uncompressed encoding of what was parsed instead of the raw bytes.
+        let mut has_pointer = false;
+        let mut idx = 0;
+        while let Some(&len) = raw.get(idx) {
+            match len {
+                0 => break,
+                len if len & 0b1100_0000 == 0b1100_0000 => {
+                    has_pointer = true;
+                    break;
+                }
+                len => idx += 1 + usize::from(len),
+            }
+        }
+
+        let original = if has_pointer {
+            let query = inner.original();
+            let mut encoded = Vec::with_capacity(query.name.len() + 4);
+            for label in query.name.iter() {
+                encoded.push(label.len() as u8);
+                encoded.extend_from_slice(label);
+            }
+            encoded.push(0);
+            encoded.extend_from_slice(&u16::from(query.query_type).to_be_bytes());
+            encoded.extend_from_slice(&u16::from(query.query_class).to_be_bytes());
+            encoded.into_boxed_slice()
+        } else {
+            raw.to_vec().into_boxed_slice()
+        };
 
         Ok(Self { inner, original })
     }
